@@ -116,7 +116,9 @@ pub fn mix(rng: &mut Rng, n: usize, count: usize) -> Vec<(String, Vec<u8>)> {
 /// lanes, all-ones sub-words), sparse and dense patterns, word extremes in a random lane.
 pub fn structured(rng: &mut Rng, n: usize) -> (String, Vec<u8>) {
     let mut v = rng.bytes(n);
-    match rng.below(8) {
+    match rng.below(10) {
+        8 => wordmask(rng, n),
+        9 => zero_affix(rng, n),
         0 | 1 => {
             // a random w-byte word repeated
             let w = [2usize, 4, 8][rng.below(3)].min(n.max(1));
@@ -186,3 +188,87 @@ pub fn structured(rng: &mut Rng, n: usize) -> (String, Vec<u8>) {
         }
     }
 }
+
+/// Word-level sparse values: one random w-byte word W (w in 1, 2, 4, 8); every aligned w-byte slot holds W or 0.  Equal and
+/// zero words at arbitrary slots are what word-wise folds (OR / XOR / compare over the words of a key) can confuse.
+pub fn wordmask(rng: &mut Rng, n: usize) -> (String, Vec<u8>) {
+    let w = [1usize, 2, 4, 8][rng.below(4)].min(n.max(1));
+    let word = rng.bytes(w);
+    let mut v = vec![0u8; n];
+    let mut any = false;
+    for slot in 0..n.div_ceil(w) {
+        if rng.below(2) == 0 {
+            any = true;
+            for j in 0..w {
+                if slot * w + j < n {
+                    v[slot * w + j] = word[j];
+                }
+            }
+        }
+    }
+    if !any && n > 0 {
+        let slot = rng.below(n.div_ceil(w));
+        for j in 0..w {
+            if slot * w + j < n {
+                v[slot * w + j] = word[j];
+            }
+        }
+    }
+    ("wordmask".into(), v)
+}
+
+/// A zero prefix followed by a non-zero tail, or a non-zero head followed by zeros; the cut is at a word boundary
+/// (4, 8, 16, 32, ...) or anywhere.  For inputs that are consumed cyclically or in chunks (keys, salts).
+pub fn zero_affix(rng: &mut Rng, n: usize) -> (String, Vec<u8>) {
+    let mut v = rng.bytes(n);
+    if n < 2 {
+        return ("random".into(), v);
+    }
+    let cuts: Vec<usize> = [4usize, 8, 16, 24, 32, 56, 64].iter().copied().filter(|&c| c < n).collect();
+    let cut = if cuts.is_empty() || rng.below(3) == 0 { 1 + rng.below(n - 1) } else { cuts[rng.below(cuts.len())] };
+    if rng.below(2) == 0 {
+        for b in v.iter_mut().take(cut) {
+            *b = 0;
+        }
+        if v[cut..].iter().all(|&b| b == 0) {
+            v[n - 1] = 1;
+        }
+        ("zero-prefix".into(), v)
+    } else {
+        for b in v.iter_mut().skip(cut) {
+            *b = 0;
+        }
+        if v[..cut].iter().all(|&b| b == 0) {
+            v[0] = 0x80;
+        }
+        ("zero-suffix".into(), v)
+    }
+}
+
+/// Lane patterns for `lanes` parallel inputs: which lanes hold equal values.  A fast path keyed on "all lanes equal" (or any
+/// other relation between lanes) is only exercised by inputs with such relations; independent random lanes never have them.
+/// Returns the index of the distinct value each lane takes.
+pub fn lane_pattern(rng: &mut Rng, lanes: usize) -> (String, Vec<usize>) {
+    let k = rng.below(7);
+    lane_pattern_k(rng, lanes, k)
+}
+/// the `k`-th pattern (mod 7), so that a loop can cover all of them
+pub fn lane_pattern_k(rng: &mut Rng, lanes: usize, k: usize) -> (String, Vec<usize>) {
+    match k % 7 {
+        0 => ("lanes-all-equal".into(), vec![0; lanes]),
+        1 => ("lanes-pairs".into(), (0..lanes).map(|j| j / 2).collect()),
+        2 => ("lanes-halves".into(), (0..lanes).map(|j| j % (lanes / 2).max(1)).collect()),
+        3 => {
+            // all equal but one
+            let odd = rng.below(lanes.max(1));
+            ("lanes-one-differs".into(), (0..lanes).map(|j| if j == odd { 1 } else { 0 }).collect())
+        }
+        4 => ("lanes-alternate".into(), (0..lanes).map(|j| j % 2).collect()),
+        5 => {
+            // a random partition into at most 3 values
+            ("lanes-partition".into(), (0..lanes).map(|_| rng.below(3)).collect())
+        }
+        _ => ("lanes-distinct".into(), (0..lanes).collect()),
+    }
+}
+
